@@ -53,7 +53,7 @@ def save(target, name, w):
 
 
 # ------------------------------------------------------------------------------------------------ C16
-TEXT_CHARS = ["a", "b", "x", " ", "{", "}", "é", "ß", "€", "漢", "😀", "́", "\n", "0"]
+TEXT_CHARS = ["a", "b", "x", " ", "{", "}", "é", "ß", "€", "漢", "😀", "\u0301", "\n", "0"]
 LABELS = ["", "a", "b", "x", "ab", "é", "a b", "{", "x}", "user_name", "0", "漢€"]
 N_FMT = 7
 STATIC, REF, OWNED, SHARED = 0, 1, 2, 3
@@ -62,6 +62,7 @@ BY_REF, TO_OWNED, CLONE = range(3)
 
 
 def c16_chars(w, s, free=True):
+    assert len(s) <= 4
     w.u8(len(s))
     for c in s:
         if c in TEXT_CHARS:
@@ -110,6 +111,7 @@ def c16_parts(w, ps, lo=0):
 
 
 def c16_resplit(w, runs=(), flavors=()):
+    assert len(runs) <= 3 and len(flavors) <= 3 and all(len(c) <= 3 for c, _ in runs)  # counts are taken modulo 4
     w.u8(len(runs))
     for cuts, keep in runs:
         w.u8(len(cuts))
@@ -229,9 +231,9 @@ def corpus_c16():
     t = "template_eq_render"
     hello = [T("a é€", STATIC), H("user_name"), T("", OWNED), H("x", 1, SHARED), T("}😀")]
     save(t, "h-triple-resplit-multibyte", c16_triple(
-        hello, ("resplit", [([60, 130], True), ([200], False)], [0, 1, 2, 3]), ("resplit", [([255, 0], True)], [2]),
+        hello, ("resplit", [([60, 130], True), ([200], False)], [0, 1, 3]), ("resplit", [([255, 0], True)], [2]),
         shapes=((NEW, ()), (FROM_SLICE, (TO_OWNED,)), (NEW_OWNED, (BY_REF, CLONE))),
-        props=[("user_name", "Rust"), ("x", 42), ("x", "shadowed"), ("zz", True)], opts=(12, True, 1)))
+        props=[("user_name", "Rust"), ("x", 42), ("x", "ab}"), ("zz", True)], opts=(12, True, 1)))
     save(t, "h-triple-mutants", c16_triple(
         [T("ab"), H("a"), T("x"), H("b", 2), T("é")],
         ("mutant", [("ReplaceChar", 0, 128, 6)], [([128], False)], [1]),
@@ -251,8 +253,8 @@ def corpus_c16():
         [T("n="), H("x", 3)], ("mutant", [("SetFmt", 0, None)], [], []), ("mutant", [("InsertChar", 0, 255, 4), ("DeleteChar", 0, 0)], [], []),
         props=[("x", 3.25), ("x", 1)], opts=(39, False, 1)))
     save(t, "h-triple-free-text", c16_triple(
-        [T("q z"), H("k "), T("\U0010ffff")], ("resplit", [([90], False), ([128], True)], [1, 2]), ("resplit", [], []),
-        props=[("k ", 2 ** 63 + 5)], opts=(20, True, 2)))
+        [T("q\u00a0z"), H("k\u2028"), T("\U0010ffff")], ("resplit", [([90], False), ([128], True)], [1, 2]), ("resplit", [], []),
+        props=[("k\u2028", 2 ** 63 + 5)], opts=(20, True, 2)))
     save(t, "h-small-empty-vs-hole", c16_small([0, 4], [4]))
     save(t, "h-small-multibyte-split", c16_small([1, 2], [3]))
     save(t, "h-small-unequal", c16_small([6, 5, 0], [1, 5]))
@@ -488,6 +490,7 @@ def c02_val(w, v):
 
 
 def c02_kvs(w, kvs):
+    assert len(kvs) <= 5  # slices up to 5, arrays / maps up to 4, layers up to 3 pairs
     w.u8(len(kvs))
     for k, v in kvs:
         c02_key(w, k)
@@ -507,10 +510,13 @@ LEAVES = {"pair": 0, "slice": 3, "array": 12, "btree": 14, "hash": 16, "empty": 
 INNER = {"and": 0, "nested": 6, "some": 8, "box": 9, "arc": 10, "ref": 11, "erased": 12, "dedup": 15, "asmap": 17, "span": 18, "metric": 19}
 
 
-def c02_spec(w, s):
+def c02_spec(w, s, depth=4):
+    """the decoder reads the leaf/inner decision byte only while depth > 0 (nesting is capped at 4)"""
     k = s[0]
     if k in LEAVES:
-        w.u8(0).u8(LEAVES[k])
+        if depth > 0:
+            w.u8(0)
+        w.u8(LEAVES[k])
         if k == "pair":
             c02_key(w, s[1][0])
             c02_val(w, s[1][1])
@@ -538,26 +544,28 @@ def c02_spec(w, s):
             for v in s[2]:
                 c02_val(w, v)
         return
+    assert depth > 0, "nesting deeper than 4"
+    d = depth - 1
     w.u8(1).u8(INNER[k])
     if k == "and":
-        c02_spec(w, s[1])
-        c02_spec(w, s[2])
+        c02_spec(w, s[1], d)
+        c02_spec(w, s[2], d)
     elif k == "nested":
         w.u8(len(s[1]))
         for x in s[1]:
-            c02_spec(w, x)
+            c02_spec(w, x, d)
     elif k == "erased":
         w.u8(s[1])
-        c02_spec(w, s[2])
+        c02_spec(w, s[2], d)
     elif k == "span":
         w.u8(STRS.index(s[1]))
-        c02_spec(w, s[2])
+        c02_spec(w, s[2], d)
     elif k == "metric":
         w.u8(STRS.index(s[1])).u8(STRS.index(s[2]))
         c02_val(w, s[3])
-        c02_spec(w, s[4])
+        c02_spec(w, s[4], d)
     else:
-        c02_spec(w, s[1])
+        c02_spec(w, s[1], d)
 
 
 def c02_case(spec, host=("direct",), nth=128):
@@ -584,18 +592,18 @@ def corpus_c02():
     save(t, "h-slice-duplicates", c02_case(("slice", dup[:5])))
     save(t, "h-and-btree-hash", c02_case(("and", ("btree", [("b", 1), ("a", 2), ("b", 3)], 1), ("hash", [("a", "text"), ("k", 7), ("a", 8)])), nth=255))
     save(t, "h-dedup-erased-nested", c02_case(("dedup", ("erased", 1, ("nested", [("slice", dup[:3]), ("array", dup[1:5]), ("pair", ("a", 9), 1)]))), nth=0))
-    save(t, "h-asmap-ref-arc-box", c02_case(("asmap", ("ref", ("arc", ("box", ("and", ("slice", dup[:4]), ("some", ("pair", ("b", "1"), 0))))))))
+    save(t, "h-asmap-ref-arc-box", c02_case(("and", ("asmap", ("ref", ("arc", ("slice", dup[:4])))), ("some", ("box", ("pair", ("b", "1"), 0))))))
     save(t, "h-span-metric-views", c02_case(
         ("span", "span", ("metric", "x", "text", 42, ("slice", [("span_name", "x"), ("metric_value", 1), ("evt_kind", "span"), ("a", 1)])))))
     save(t, "h-extent-spanctxt", c02_case(("and", ("extent", 5, 70), ("and", ("spanctxt", 77, None, 0), ("slice", [("ts", 1), ("trace_id", ("trace", 5)), ("span_id", ("span", 9))])))))
     save(t, "h-frame-clone", c02_case(("and", ("frame", [(False, [("a", 1), ("b", 2)]), (False, [("a", 3)])]), ("frame", [(False, [("k", 1)]), (True, [("z", 2)])]))))
     save(t, "h-macro-shapes", c02_case(("nested", [("macro", 4, [1, 2, 3, 4]), ("macro", 2, [None, "x", 1, 1]), ("macro", 1, [True, 2.5, "é", 0])])))
     save(t, "h-ambient-erased", c02_case(("and", ("slice", dup[:3]), ("hash", [("k", 1)])), host=("ambient", 3, False, [("a", 0), ("lvl", "x")])))
-    save(t, "h-ambient-root-option", c02_case(("erased", 2, ("slice", dup)), host=("ambient", 2, True, [("z", 1)]), nth=64))
+    save(t, "h-ambient-root-option", c02_case(("erased", 2, ("slice", dup[:5])), host=("ambient", 2, True, [("z", 1)]), nth=64))
     save(t, "h-traceparent", c02_case(("slice", [("a", 1), ("trace_id", ("trace", 3)), ("a", 2)]), host=("traceparent", [("b", 1)])))
     save(t, "h-event-runtime", c02_case(("and", ("pair", ("k", "true"), 0), ("btree", dup[:4], 0)), host=("event", 2, [("a", 5), ("c", 6)])))
     save(t, "h-event-from-fn", c02_case(("dedup", ("and", ("slice", dup[:2]), ("slice", dup[:2]))), host=("event", 1, [])))
-    save(t, "h-free-keys", c02_case(("slice", [("é́", 1), ("k\0", 2), ("\U0001f600", 2 ** 64 - 1), ("zz", -(2 ** 63))])))
+    save(t, "h-free-keys", c02_case(("slice", [("é\u0301", 1), ("k\0", 2), ("\U0001f600", 2 ** 64 - 1), ("zz", -(2 ** 63))])))
     save(t, "h-none-empty", c02_case(("and", ("none",), ("and", ("empty",), ("some", ("empty",))))))
 
 
